@@ -140,6 +140,8 @@ TWINS_STACK = {
     "fill_thread_stack": ["native:thread_list_stream::bprime_stack_region_for_every_sp_offset", "native:thread_list_stream::c20_ip_at_end_of_principal_mapping_is_outside"],
     "get_stack_info": ["native:ptrace_dumper::c02_get_stack_info_top_of_address_space"],
     "app_memory_write": ["kani:vk_app_memory_two_regions"],
+    "find_mapping": ["kani:vk_find_mapping_2"],
+    "find_mapping_no_bias": ["kani:vk_find_mapping_no_bias_2"],
 }
 TWINS_DIR = {
     "new": ["native:c09_dest::bprime_destination_equals_image_for_every_short_history"],
@@ -216,14 +218,15 @@ PLAN["C06"] = {
                    "(or in the first plausible stack mapping above it), extends to the end of that mapping without a limit, is at most the "
                    "limit with one, and contains the stack pointer whenever the stack pointer lies in a readable stack-like mapping; "
                    "which threads are limited is a bounded Kani obligation on thread_list_stream::write (thorough tier)",
-    "verus": [dict(STACK, functions=["get_stack_info", "fill_thread_stack", "contains_address", "end_address"], tags=["C06"])],
+    "verus": [dict(STACK, functions=["get_stack_info", "fill_thread_stack", "contains_address", "end_address"], tags=["C06"]),
+              {"unit": "find_mapping", "functions": ["find_mapping"], "tags": ["C06"], "tiers": Q}],
     "kani": [{"tiers": Q, "jobs": 4, "timeout": 900, "harnesses": K_FIND},
              {"tiers": T, "jobs": 3, "timeout": 3600, "mem_gb": 24, "harnesses": dict(K_TLS_CAP, **K_TLS)}],
     "native": [N_TLS],
     "native_files": [N_C06_LIVE],
     "twins": TWINS_STACK,
     "trusted": ["copy_from_process satisfies copy_ok (C17 decides it for the ptrace strategy; assumed for process_vm_readv and /proc/pid/mem)",
-                "find_mapping / may_be_stack contracts are assumed in Verus (iterator adapter, bitflags operator) and checked by Kani (2 mappings)"],
+                "find_mapping's contract is assumed in the unit `stack` and proved, for lists of any length, in the unit `find_mapping` relative to an assumed contract of core::slice::Iter::find (first match); may_be_stack's contract is assumed in Verus (bitflags operator) and proved complete by Kani"],
     "samples": ["get_stack_info ensures: is_first(k, page(sp)) && stack_like(maps[k]) ==> Ok && v == page(sp) && v+len == end(maps[k])",
                 "fill_thread_stack ensures: sp in a readable stack-like mapping && included ==> start <= sp < start+len  [C06]"],
 }
@@ -252,7 +255,8 @@ PLAN["C20"] = {
     "explanation": "fill_thread_stack keeps a stack under skip-unreferenced iff the instruction pointer lies in [low, high) of the principal mapping "
                    "or the copied bytes hold an aligned pointer into it; crash_thread_references_principal_mapping uses the same half-open range; "
                    "the stack scanner itself is checked against has_ptr by Kani (bounded); dump() reports PrincipalMappingNotReferenced (thorough)",
-    "verus": [dict(STACK, functions=["fill_thread_stack", "crash_thread_references_principal_mapping"], tags=["C20"])],
+    "verus": [dict(STACK, functions=["fill_thread_stack", "crash_thread_references_principal_mapping"], tags=["C20"]),
+              {"unit": "find_mapping", "functions": ["find_mapping_no_bias"], "tags": ["C20"], "tiers": Q}],
     "kani": [{"tiers": Q, "jobs": 4, "timeout": 900, "harnesses": K_HAS_PTR},
              {"tiers": T, "jobs": 2, "timeout": 5400, "mem_gb": 24, "harnesses": dict(K_DUMP, **{"vk_has_ptr_len24": H("B", "MappingInfo::stack_has_pointer_to_mapping", "24-byte symbolic stack copy")})}],
     "native": [N_TLS],
@@ -348,10 +352,11 @@ PLAN["C12"] = {
     "level": "model_checking",
     "explanation": "sanitize_stack_copy against the statement: bounded-exhaustive native enumeration of boundary words/offsets/mapping orders (quick), "
                    "Kani with fully symbolic 8- and 12-byte stacks and a symbolic mapping (thorough)",
-    "verus": [],
+    "verus": [{"unit": "find_mapping", "functions": ["find_mapping_no_bias"], "tags": ["C12"], "tiers": Q}],
     "kani": [{"tiers": T, "jobs": 2, "timeout": 5400, "mem_gb": 24, "harnesses": K_SANITIZE}],
     "native": [N_SANITIZE],
-    "trusted": ["Verus cannot read the function (chunks_exact_mut, vec! table)"],
+    "twins": TWINS_STACK,
+    "trusted": ["Verus cannot read sanitize_stack_copy (chunks_exact_mut, vec! table); of its callees only find_mapping_no_bias is proved"],
     "samples": ["qualifies(w) <=> |w as isize| <= 4096 || w in stack mapping || w in first mapping containing it and that one is executable"],
 }
 
@@ -473,6 +478,7 @@ PLAN["C02"] = {
               {"unit": "dir_section", "functions": ["new", "dump_dir_entry", "write_to_file"], "tags": ["C02"], "tiers": Q},
               {"unit": "app_memory", "functions": ["app_memory_write"], "tags": ["C02"], "tiers": Q},
               {"unit": "maps_filter", "functions": ["is_interesting", "is_contained_in"], "tags": ["C02"], "tiers": Q},
+              {"unit": "find_mapping", "functions": ["find_mapping", "find_mapping_no_bias"], "tags": ["C02"], "tiers": Q},
               {"unit": "mem_writer", "functions": None, "tags": ["C02"], "tiers": Q}],
     "kani": [{"tiers": Q, "jobs": 8, "timeout": 1200, "harnesses": dict(K_HAS_PTR, **dict(K_FIND, **{"vk_safe_to_open_table": H("B", "MappingInfo::is_mapped_file_safe_to_open", "5 concrete names")}))}],
     "native": [N_PD_TOTAL,
